@@ -5,7 +5,7 @@ from .. import env, coq, runner, gates, tables, circuits
 
 LEVEL = 'proof'
 META = dict(
-    text='Coq theorems: the textbook action of a matrix on chosen axes (apply) is linear, commutes on disjoint axes and composes (C01 theorems re-used), the buffer loop returns the ordered product, control of a product is the product of controls, SWAP = 3 CNOT and CZ = (I x H) CNOT (I x H) as ring identities; and on every run a correspondence that evaluates the model inside Coq and compares it with each description Cirq offers for generated operations: apply_unitary on embedded / permuted / subspace axes with junk buffers, decompose_once and recursive decompose, kraus / mixture / superoperator, act_on for the state-vector and density-matrix states, wrappers (tags, inverse, ParallelGate, qubit remapping, CircuitOperation, controls) and the has_* / is_measurement answers.',
+    text='Coq theorems: the textbook action of a matrix on chosen axes (apply) is linear, commutes on disjoint axes and composes (C01 theorems re-used), the buffer loop returns the ordered product, control of a product is the product of controls, SWAP = 3 CNOT and CZ = (I x H) CNOT (I x H) as ring identities; and on every run a correspondence that evaluates the model inside Coq and compares it with each description Cirq offers for generated operations: apply_unitary on embedded / permuted / subspace axes with junk buffers, decompose_once and recursive decompose, kraus / mixture / superoperator, act_on for the state-vector and density-matrix states, wrappers (tags, inverse, ParallelGate, qubit remapping, CircuitOperation, controls) and the has_* / is_measurement answers. Application to chosen levels of wider axes (ApplyUnitaryArgs.subspaces) is modelled: amplitudes outside the product subspace are untouched, all levels is ordinary application, a product of gates on the subspace is the gates one after the other on it. Fixed grids for every seed: controlled powers at every special exponent x shift, the noise channels at near-special parameters against the documented Kraus maps applied in Coq, one simulation state through sequences of channels, one qubit-subspace case per gate family.',
     note='Trusted: Coq kernel; float instance with tolerance 1e-6; numpy; Python adapters. The particular decompositions Cirq uses today are validated per generated operation (a proved evaluator applied to the real output), not proved for all parameters; pieces of a decomposition enter the model through their own cirq.unitary (whose agreement with the documented matrix is C03).',
     technique='Rocq/Coq proof over the reference tensor semantics + vm_compute correspondence across all protocol descriptions of generated operations',
 )
